@@ -1,8 +1,10 @@
 package main
 
 import (
+	"fmt"
 	"math/rand"
 	"sort"
+	"strings"
 
 	"tags.cncf.io/container-device-interface/pkg/parser"
 )
@@ -181,6 +183,24 @@ func (parserStream) Execute(c Case) {
 	case "pqn":
 		v, cl, n, err := parser.ParseQualifiedName(s)
 		obs["v"], obs["c"], obs["n"], obs["ok"] = hx(v), hx(cl), hx(n), err == nil
+		// the parser is a function of its argument: the same call again, made right after successful parses of names
+		// whose vendor/class text is a prefix of this string, must give the same answer
+		if eq := strings.IndexByte(s, '='); eq > 0 && strings.IndexByte(s[:eq], '/') > 0 {
+			aux := []any{}
+			primed := 0
+			for k := eq; k >= 3 && primed < 3; k-- {
+				if _, _, _, perr := parser.ParseQualifiedName(s[:k] + "=x0"); perr != nil {
+					continue
+				}
+				primed++
+				v2, c2, n2, err2 := parser.ParseQualifiedName(s)
+				if v2 != v || c2 != cl || n2 != n || (err2 == nil) != (err == nil) {
+					aux = append(aux, fmt.Sprintf("ParseQualifiedName(%q) answers (%q,%q,%q,%v) at first and (%q,%q,%q,%v) after a successful parse of %q",
+						s, v, cl, n, err == nil, v2, c2, n2, err2 == nil, s[:k]+"=x0"))
+				}
+			}
+			obs["aux"] = aux
+		}
 	case "isq":
 		obs["ok"] = parser.IsQualifiedName(s)
 	case "vendor":
